@@ -4,6 +4,7 @@ Sequence generator (tier 1) + request store and `_handle_response` correlation (
 -/
 import SmppVerif.Lemmas.Policy
 import SmppVerif.Lemmas.Expiry
+import SmppVerif.Lemmas.SweepTasks
 
 namespace SmppVerif.Props.C13
 open SmppVerif SmppVerif.Policy SmppVerif.Corr SmppVerif.Lemmas.Policy SmppVerif.Lemmas.Corr
@@ -133,6 +134,15 @@ example :
     (handleResponse (handleResponse s0 2 r).1 3 r).2.2.2 = .msg r := by
   decide +kernel
 
+open SmppVerif.SweepTasks SmppVerif.Lemmas.SweepTasks in
+/-- At most once, under every interleaving of the correlator's operations at their suspension points
+    (Model/SweepTasks.lean): a request stored once is matched by a response or swept out at most once in total, in any
+    schedule — a duplicate or late response never finds it a second time, and a response never finds a request that
+    has already been reported as timed out (or the other way round). -/
+theorem matched_at_most_once_under_interleaving (k : Nat) (evs : List Ev) (w : World)
+    (hnew : aget w.cs.store k = none) (hput : inserted k (run w evs).2 ≤ 1) : removed k (run w evs).2 ≤ 1 :=
+  at_most_once k evs w hnew hput
+
 end SmppVerif.Props.C13
 
 #print axioms SmppVerif.Props.C13.esme_generator_ok
@@ -147,3 +157,4 @@ end SmppVerif.Props.C13
 #print axioms SmppVerif.Props.C13.unsolicited_unattributed
 #print axioms SmppVerif.Props.C13.mismatched_dropped
 #print axioms SmppVerif.Props.C13.attribution_source
+#print axioms SmppVerif.Props.C13.matched_at_most_once_under_interleaving
